@@ -462,6 +462,10 @@ def corpus():
     out.append(mk_line(OFFSET + 2000, nopl, [("SETPAYLOAD", b"made"), ("ADD", unk), ("SETPAYLOAD", b"again")]))
     out.append(mk_line(OFFSET + 2000, nopl, [("BUILD",), ("SETPAYLOAD", b"x")]))
     out.append(mk_line(OFFSET + 2000, dict(p=dict(P0), cs=[_c(7, 2, ("DERR",)), pay]), [("SETCRC", 1)]))
+    # a payload whose block gets the CORRECT CRC-32C 0x00000000 (witness re-verified in genb.zero_crc_bundles): after set_crc(2) and
+    # set_payload the bundle must still round-trip (a decoder that reads four zero bytes as "no CRC calculated yet" does not)
+    out.append(mk_line(OFFSET + 2000, std, [("SETCRC", 2), ("SETPAYLOAD", bytes.fromhex("62703720f81c8f51"))]))
+    out.append(mk_line(OFFSET + 2000, std, [("SETPAYLOAD", bytes.fromhex("62703720f81c8f51")), ("SETCRC", 2), ("ADD", _c(7, 0, ("AGE", 1)))]))
     # builder input in arbitrary order, payload first
     out.append(mk_line(OFFSET + 2000, dict(p=dict(P0), cs=[pay, _c(7, 2, ("AGE", 0)), _c(10, 4, ("HOP", 32, 0)), _c(6, 3, ("PREV", EIDS[2]))]),
                        [("SORT",), ("ADD", unk), ("UPD", EIDS[1], U64)]))
